@@ -3,6 +3,7 @@ CONSTANTS
   NLines = 2
   Dev = {}
   Lvls = {TRUE, FALSE}
+  TwoPhase = FALSE
   Grain = "stmt"
 SPECIFICATION Spec
 INVARIANT InvExactlyOnce
